@@ -37,6 +37,81 @@ theorem parse_text_result (fl : Flags) (s : Text) (d : Document) :
   · rintro ⟨body, ht, w, m⟩
     exact ⟨_, (lexAll_ok_iff s _).mpr ⟨body, rfl, ht⟩, w, m⟩
 
+/-! ### the other two entry points at text level: `parse_value(text)` and `parse_type(text)` -/
+
+/-- `parse_value(text)` returns `v` EXACTLY when the text is a tiling whose tokens are `SOF`, a derivation of the
+    well-formed value `v` (variables allowed: `Value[~Const]`), `EOF` — specification only on the right-hand side. -/
+theorem parse_value_text_result (fl : Flags) (s : Text) (v : Value) :
+    parseValueText fl s = some v ↔
+      ∃ body, Tiles s.length s body ∧ wfValue false v = true ∧ Matches fl [p .sof, valueV v, p .eof] (Lex.sofTok :: body) := by
+  unfold parseValueText
+  cases hl : Lex.lexAll s with
+  | error e =>
+    constructor
+    · intro h; cases h
+    · rintro ⟨body, ht, _⟩
+      rw [(lexAll_ok_iff s _).mpr ⟨body, rfl, ht⟩] at hl; cases hl
+  | ok toks =>
+    obtain ⟨body, rfl, ht⟩ := (lexAll_ok_iff s toks).mp hl
+    dsimp only
+    constructor
+    · intro h
+      cases hp : parseValue fl (Lex.sofTok :: body) with
+      | error e => rw [hp] at h; cases h
+      | ok v' =>
+        rw [hp] at h
+        have : v' = v := by simpa [Except.toOption] using h
+        subst this
+        exact ⟨body, ht, parseValue_sound fl _ v' hp⟩
+    · rintro ⟨body', ht', w, m⟩
+      have e := (lexAll_ok_iff s _).mpr ⟨body', rfl, ht'⟩
+      rw [hl] at e
+      cases e
+      rw [parseValue_complete fl _ v w m]; rfl
+
+/-- `parse_type(text)` returns `t` exactly when the text is a tiling whose tokens are `SOF`, a derivation of the
+    well-formed type `t`, `EOF`. -/
+theorem parse_type_text_result (fl : Flags) (s : Text) (t : TypeRef) :
+    parseTypeText fl s = some t ↔
+      ∃ body, Tiles s.length s body ∧ wfType t = true ∧ Matches fl [p .sof, typeV t, p .eof] (Lex.sofTok :: body) := by
+  unfold parseTypeText
+  cases hl : Lex.lexAll s with
+  | error e =>
+    constructor
+    · intro h; cases h
+    · rintro ⟨body, ht, _⟩
+      rw [(lexAll_ok_iff s _).mpr ⟨body, rfl, ht⟩] at hl; cases hl
+  | ok toks =>
+    obtain ⟨body, rfl, ht⟩ := (lexAll_ok_iff s toks).mp hl
+    dsimp only
+    constructor
+    · intro h
+      cases hp : parseType fl (Lex.sofTok :: body) with
+      | error e => rw [hp] at h; cases h
+      | ok v' =>
+        rw [hp] at h
+        have : v' = t := by simpa [Except.toOption] using h
+        subst this
+        exact ⟨body, ht, parseType_sound fl _ v' hp⟩
+    · rintro ⟨body', ht', w, m⟩
+      have e := (lexAll_ok_iff s _).mpr ⟨body', rfl, ht'⟩
+      rw [hl] at e
+      cases e
+      rw [parseType_complete fl _ t w m]; rfl
+
+/-- acceptance of the two entry points -/
+theorem parse_value_text_accepts_iff (fl : Flags) (s : Text) :
+    (∃ v, parseValueText fl s = some v) ↔
+      ∃ body v, Tiles s.length s body ∧ wfValue false v = true ∧ Matches fl [p .sof, valueV v, p .eof] (Lex.sofTok :: body) :=
+  ⟨fun ⟨v, h⟩ => let ⟨b, r⟩ := (parse_value_text_result fl s v).1 h; ⟨b, v, r⟩,
+   fun ⟨b, v, r⟩ => ⟨v, (parse_value_text_result fl s v).2 ⟨b, r⟩⟩⟩
+
+theorem parse_type_text_accepts_iff (fl : Flags) (s : Text) :
+    (∃ t, parseTypeText fl s = some t) ↔
+      ∃ body t, Tiles s.length s body ∧ wfType t = true ∧ Matches fl [p .sof, typeV t, p .eof] (Lex.sofTok :: body) :=
+  ⟨fun ⟨t, h⟩ => let ⟨b, r⟩ := (parse_type_text_result fl s t).1 h; ⟨b, t, r⟩,
+   fun ⟨b, t, r⟩ => ⟨t, (parse_type_text_result fl s t).2 ⟨b, r⟩⟩⟩
+
 /-! ### the optional `{…}` blocks of type-system definitions are read greedily (known finding LA2, hunt2 C01/3)
 
     June 2018 has no `[lookahead ≠ {]`: `type A {b}` also derives as the block-less `type A` followed by the shorthand
